@@ -510,9 +510,22 @@ def replay_case(art):
     inpath = art + ".input"
     open(inpath, "w").write(",".join(str(x) for x in v["input"]))
     args = [v["side"], "@" + inpath, ",".join(str(c) for c in v["cuts"]), ",".join(v["methods"])]
+    if v["side"] == "stream":
+        args = ["stream", "@" + inpath, "none" if v.get("max_size") is None else str(v["max_size"]), "none" if v.get("limit") is None else str(v["limit"])]
     p = subprocess.run(["cargo", "run", "--offline", "-q", "--"] + args, cwd=d, env=env, stdout=subprocess.PIPE, stderr=subprocess.STDOUT, text=True, timeout=900)
     out = p.stdout
     import re as _re
+    if v["side"] == "stream":
+        want = ";".join("%d-%d:%s" % (r[1][0], r[1][1], ".".join(str(x) for x in r[0])) for r in v["expected"]["records"])
+        lines = [l for l in out.splitlines() if l.startswith("STREAM ")]
+        if not lines:
+            return None, "replay driver failed: " + out[-400:]
+        for l in lines:
+            got = l.split(" => ", 1)[1].strip()
+            if got != want:
+                return True, "native StreamReader on %s (max_record_size %s, limit_offset %s) %s yields [%s], the stream's valid records are [%s]" % (
+                    _short(v["input"]), v.get("max_size"), v.get("limit"), l.split(" => ")[0][7:], got, want)
+        return False, "native StreamReader agrees with the reference on %s for %d block-size / read-size schedules" % (_short(v["input"]), len(lines))
     m = _re.search(r"RESULT (\w+)(?: (.*))?", out)
     if not m:
         return None, "replay driver failed: " + out[-400:]
@@ -1098,3 +1111,285 @@ class Anchors(ApiProduction):
         a2, _, _, _ = q.ask("anch-cov-" + tag, decls, ["(not %s)" % mir.disj(cov)], get_model=False) if cov else ("sat", None, "", "")
         ob.append(("anchors %s: the enumerated paths cover every input" % tag, a2))
         return ob, viol, {"config": {k: (v if k != "sym" else v[:12]) for k, v in cfg.items()}, "implementation_paths": len(impl)}, len(impl)
+
+
+# ---------------------------------------------------------------------------
+# C06: StreamReader::next_record_bytes over the pump contract
+
+def stream_body(mod, fn):
+    c = [b[-1] for k, b in mod.bodies.items() if k.startswith("stream_reader::") and k.endswith("::" + fn)]
+    if len(c) != 1:
+        raise Unsupported("cannot find stream_reader::%s (%d candidates)" % (fn, len(c)))
+    return c[0]
+
+
+def record_of(events):
+    """Bytes of the record being returned: what was appended since the last clear()."""
+    last = 0
+    for i, e in enumerate(events):
+        if e[0] == "clear":
+            last = i + 1
+    return output_of(events[last:])
+
+
+def run_stream_reader(mod, it, stream, max_size, limit, max_calls=None):
+    """Calls StreamReader::next_record_bytes (MIR) until it returns None / an error, on every path.
+    Returns [(conds, [(bytes, (start, end)), ...], end_kind, faults)]."""
+    U64MAX, USIZEMAX = (1 << 64) - 1, (1 << 64) - 1
+    judge_fn = stream_body(mod, "chunk_judge")
+    nrb = stream_body(mod, "next_record_bytes")
+    res = it.call(judge_fn, [USIZEMAX if max_size is None else max_size, Adt("None", []) if limit is None else Adt("Some", [limit])])
+    if len(res) != 1 or res[0].kind != "return":
+        raise Unsupported("chunk_judge did not evaluate")
+    judge = res[0].value
+    st0 = res[0].state
+    st0.events = []
+    st0.store["g:sr"] = Adt("StreamReader", {"iovec": Adt("OwningIovec", {}), "chunker": Adt("StreamChunker", {"rest": Slice(list(stream), "stream"), "offset": 0}), "last_sentinel_offset": 0})
+    work = [(st0, [])]
+    out = []
+    max_calls = max_calls or (len(stream) + 3)
+    for _round in range(max_calls):
+        nxt = []
+        for st, recs in work:
+            for r in it.call(nrb, [Ref("g:sr"), Adt("reader", {}), judge, Adt("None", [])], base=st):
+                if r.kind != "return":
+                    out.append((r.state.cond, recs, r.kind + ": " + r.note, []))
+                    continue
+                v = r.value
+                if v.name == "Err":
+                    out.append((r.state.cond, recs, "io-error", []))
+                    continue
+                opt = v.fields[0]
+                if opt.name == "None":
+                    out.append((r.state.cond, recs, "eof", []))
+                    continue
+                tup = opt.fields[0]
+                rng = tup.fields[1]
+                rec = record_of(r.state.events)
+                faults = anchor_faults_all(r.state.events)
+                if rec is None:
+                    out.append((r.state.cond, recs, "pending placeholder in a returned record", []))
+                    continue
+                if faults:
+                    out.append((r.state.cond, recs, "anchor", faults))
+                    continue
+                nxt.append((r.state, recs + [(rec, (rng.get("start"), rng.get("end")))]))
+        work = nxt
+        if not work:
+            break
+    for st, recs in work:
+        out.append((st.cond, recs, "call bound exceeded", []))
+    return out
+
+
+def anchor_faults_all(events):
+    """As anchor_faults, for every anchor id that appears, restricted to the record in progress (since the last clear)."""
+    last = 0
+    for i, e in enumerate(events):
+        if e[0] == "clear":
+            last = i + 1
+    ev = events[last:]
+    small = small_copy()
+    bad = []
+    ids = {int(e[2][4:]) for e in ev if e[0] in ("push", "push_borrowed") and len(e) > 2 and str(e[2]).startswith("anch")}
+    for i in ids:
+        tag = "anch%d" % i
+        borrowed = any((e[0] == "push_borrowed" and len(e[1]) > 0 or e[0] == "push" and len(e[1]) > small) and len(e) > 2 and e[2] == tag for e in ev)
+        kept = any(e[0] == "push_anchor" and e[1] == i for e in ev)
+        if borrowed and not kept:
+            bad.append(i)
+    return bad
+
+
+def ref_record_cases(stream, max_size, limit):
+    """Reference: split at every FE FD (leftmost first), decode each non-empty segment with the format's decoder at
+    production limits, drop invalid ones and those longer than max_size, stop at the first segment starting at or after limit."""
+    n = len(stream)
+    cases = []
+    U = (1 << 64) - 1
+    max_size = U if max_size is None else max_size
+    limit = U if limit is None else limit
+
+    def stuff_at(i):
+        if i + 1 >= n:
+            return False
+        return AND(byte_eq(stream[i], 0xFE), byte_eq(stream[i + 1], 0xFD))
+
+    def layouts(pos, conds, sent):
+        # enumerate the positions of the sentinels
+        i = pos
+        while i < n:
+            s = stuff_at(i)
+            if s is False:
+                i += 1
+                continue
+            if s is True:
+                layouts_done = layouts(i + 2, conds, sent + [i])
+                return
+            layouts(i + 2, conds + [s], sent + [i])
+            conds = conds + [NOT(s)]
+            i += 1
+        segs = []
+        lo = 0
+        for sp in sent:
+            if sp > lo:
+                segs.append((lo, sp))
+            lo = sp + 2
+        if n > lo:
+            segs.append((lo, n))
+        records(segs, 0, conds, [])
+
+    def records(segs, k, conds, recs):
+        if k == len(segs) or segs[k][0] >= limit:
+            cases.append((conds, recs))
+            return
+        lo, hi = segs[k]
+        for dconds, ok, outb in ref_decode_cases(list(stream[lo:hi]), PROD[0], PROD[1]):
+            c = AND(*dconds)
+            if c is False:
+                continue
+            cc = conds + ([c] if c is not True else [])
+            if ok and len(outb) <= max_size:
+                records(segs, k + 1, cc, recs + [(outb, (lo, hi))])
+            else:
+                records(segs, k + 1, cc, recs)
+
+    layouts(0, [], [])
+    return cases
+
+
+def eval_ref_records(stream, max_size, limit):
+    n, U = len(stream), (1 << 64) - 1
+    max_size = U if max_size is None else max_size
+    limit = U if limit is None else limit
+    sent, i = [], 0
+    while i + 1 < n:
+        if stream[i] == 0xFE and stream[i + 1] == 0xFD:
+            sent.append(i)
+            i += 2
+        else:
+            i += 1
+    segs, lo = [], 0
+    for sp in sent:
+        if sp > lo:
+            segs.append((lo, sp))
+        lo = sp + 2
+    if n > lo:
+        segs.append((lo, n))
+    recs = []
+    for lo, hi in segs:
+        if lo >= limit:
+            break
+        ok, outb = eval_ref_decode(list(stream[lo:hi]), *PROD)
+        if ok and len(outb) <= max_size:
+            recs.append((outb, (lo, hi)))
+    return recs
+
+
+def records_differ(a, b):
+    if len(a) != len(b):
+        return True
+    ds = []
+    for (x, rx), (y, ry) in zip(a, b):
+        if tuple(rx) != tuple(ry):
+            return True
+        d = differ(x, y)
+        if d is True:
+            return True
+        if d is not False:
+            ds.append(d)
+    if not ds:
+        return False
+    return ds[0] if len(ds) == 1 else "(or %s)" % " ".join(ds)
+
+
+class StreamRecords(CodecJob):
+    """C06: StreamReader::next_record_bytes (MIR) on top of the pump contract, against the reference record splitter."""
+    name = "c06::stream_reader_records[mirx]"
+    pid = "C06"
+
+    def configs(self):
+        quick = self.tier == "quick"
+        U = None
+        for L in (range(0, 6) if quick else range(0, 8)):
+            yield {"L": L, "sym": list(range(L)), "max_size": U, "limit": U}
+        for L in ((4,) if quick else (4, 5, 6)):
+            for ms in (0, 1, 2):
+                yield {"L": L, "sym": list(range(L)), "max_size": ms, "limit": U}
+            for lim in range(0, L + 1):
+                yield {"L": L, "sym": list(range(L)), "max_size": U, "limit": lim}
+        # longer streams: fixed delimiters and headers, symbolic payload / garbage bytes
+        FE, FD = 0xFE, 0xFD
+        for fixed, sym in (
+                ({0: 1, 2: FE, 3: FD, 4: 2, 7: FE, 8: FD}, [1, 5, 6, 9, 10]),                # rec FEFD rec FEFD tail
+        ) + (() if quick else (
+                ({2: FE, 3: FD, 6: FE, 7: FD}, [0, 1, 4, 5, 8, 9]),                           # three symbolic 2-byte segments
+        )) + (
+                ({0: FE, 1: FD, 2: FE, 3: FD, 6: FE, 7: FD}, [4, 5, 8]),                       # leading run of delimiters
+        ):
+            L = max(list(fixed) + sym) + 1
+            yield {"L": L, "sym": sym, "fixed": fixed, "max_size": U, "limit": U, "splits": "ends"}
+
+    def bounds(self):
+        return ("StreamReader::next_record_bytes called until it returns None, with StreamChunker::pump replaced by the contract C08 decides (every admissible chunking of the stream: every length of every Data chunk), "
+                "chunk_judge closure from its MIR: EVERY byte stream of length <= 5 (quick) / 7 (thorough) with no limits; length 4 (4-6) with max_record_size 0/1/2 and every limit_offset; "
+                "10-11 byte streams with fixed delimiters / headers and symbolic payload and garbage bytes (Data chunks cut at their first byte, last byte or not at all)")
+
+    def functions(self):
+        return CodecJob.functions(self) + ["hcobs::stream_reader::StreamReader::{next_record_bytes, chunk_judge, chunk_judge::{closure#0}} (MIR), derived State::eq (MIR)",
+                                           "stub: StreamChunker::pump = tiling contract (Sentinel exactly at FE FD, non-empty stuff-free Data prefixes of every admissible length, Eof) - decided for the real pump by C08",
+                                           "stubs: OwningIovec::{clear, take, consumer, total_size} on the event log"]
+
+    def check(self, mod, cfg, q):
+        L = cfg["L"]
+        data = windowed(L, set(cfg["sym"]), 0)
+        for k, v in cfg.get("fixed", {}).items():
+            data[k] = v
+        decls = ["(declare-const b%d (_ BitVec 8))" % i for i in sorted(set(cfg["sym"]) - set(cfg.get("fixed", {}))) if i < L]
+        from mirx import Interp
+        it = Interp(mod, consts={"STUFF": Slice([0xFE, 0xFD], "STUFF"), "STUFF_SEQUENCE": Slice([0xFE, 0xFD], "STUFF")}, decls=decls, max_steps=400000)
+        if cfg.get("splits") == "ends":
+            it.pump_splits = lambda maxlen, st: sorted({1, maxlen - 1, maxlen} - {0})
+        try:
+            impl = run_stream_reader(mod, it, data, cfg["max_size"], cfg["limit"])
+            ref = ref_record_cases(data, cfg["max_size"], cfg["limit"])
+        finally:
+            it.z3.close()
+        tag = "L%d-m%s-l%s-%s" % (L, cfg["max_size"], cfg["limit"], "w" + "_".join(map(str, cfg["sym"][:4])) if cfg.get("fixed") else "all")
+        ob, viol = [], []
+        alts = []
+        for ic, recs, kind, _f in impl:
+            c = AND(*ic)
+            if c is False:
+                continue
+            if kind != "eof":
+                alts.append("true" if c is True else c)
+                continue
+            for rc, rrecs in ref:
+                r = AND(*rc)
+                if r is False:
+                    continue
+                d = records_differ(recs, rrecs)
+                if d is False:
+                    continue
+                x = AND(c, r, None if d is True else d)
+                if x is not False:
+                    alts.append("true" if x is True else x)
+        if alts:
+            a, ans, model, path = q.ask("sr-" + tag, decls, [mir.disj(alts)])
+        else:
+            a, model, path = "unsat", "", ""
+        ob.append(("stream reader %s: records and ranges == reference on every admissible chunking" % tag, a))
+        if a == "sat":
+            mv = mir.model_values(model)
+            inp = [int(mv.get(x.term, 0)) if isinstance(x, Sym) else x for x in data]
+            exp = eval_ref_records(inp, cfg["max_size"], cfg["limit"])
+            viol.append({"desc": "StreamReader records differ from the delimited valid records of the stream", "side": "stream", "input": inp, "cuts": [], "methods": [],
+                         "limits": list(PROD), "max_size": cfg["max_size"], "limit": cfg["limit"],
+                         "expected": {"kind": "ok", "bytes": [], "records": [[list(b), list(r)] for b, r in exp]}, "smt2": path})
+        cov = [AND(*x[0]) for x in impl]
+        cov = ["true" if c is True else c for c in cov if c is not False]
+        a2, _, _, _ = q.ask("sr-cov-" + tag, decls, ["(not %s)" % mir.disj(cov)], get_model=False) if cov else ("sat", None, "", "")
+        ob.append(("stream reader %s: the enumerated paths cover every stream" % tag, a2))
+        self.records_seen = getattr(self, "records_seen", 0) + sum(len(r) for _c, r, k, _f in impl if k == "eof")
+        return ob, viol, {"config": cfg, "implementation_paths": len(impl), "reference_cases": len(ref), "records_returned_over_all_paths": sum(len(r) for _c, r, k, _f in impl if k == "eof")}, len(impl)
